@@ -3,7 +3,7 @@
 SETUP_CMD = "mkdir -p evidence replays && python3-vt -c 'import z3; print(z3.get_version_string())' && /usr/bin/cvc5 --version | head -1 && ./tools/lean_check.sh"
 NOTES = ("Contract-based deductive verification with an own VC generator (pyvc); see DESIGN.md (section 10 is the build report). Exit codes of ./check: 0 held, "
          "1 violation (VIOLATION line), 2 undecided, 3 checker error / soundness guard. The quick tier discharges every obligation generated from /repo's current source "
-         "(z3, cvc5 for unknowns); the thorough tier repeats that with a 300 s budget, lets cvc5 re-decide every quantifier-free query, re-compiles the Lean lemma and adds two "
+         "(z3, cvc5 for unknowns; the nonlinear-real bundles of C12 with every solver run in a process of its own: z3 with four seeds and cvc5, each on the full and on the sliced hypotheses, DESIGN.md section 10.17); the thorough tier repeats that with a 300 s budget, lets cvc5 re-decide every quantifier-free query, re-compiles the Lean lemma and adds two "
          "bounded cross-checks of the trusted base that are never counted as proof: seeded differential tests of the assumed library facts (native/axiom_tests.py) and run-time "
          "evaluation of the model bundle's contracts on the real code (native/rt_model.py). A refuted obligation is replayed natively (R1 scripts per bundle, the run-time "
          "monitor, two falsification searches); without a failing input the VIOLATION line ends no-failing-input-found. ./check fixes PYTHONHASHSEED so that the generated SMT text is identical from run to run. C12 is a partial claim since DESIGN.md section 10.14 "
